@@ -239,9 +239,9 @@ theorem compute_normal_orthogonal (tol : Rat) (pts : List V3) (m : V3) (d : Rat)
         · intro h0
           apply hnot
           rw [h0]
-          have hb : 0 ≤ tol * tol * (normSq v1 * normSq vk) := by
+          have hb : 0 ≤ tol * tol * (normSq v1 * normSq v1) := by
             apply mul_nonneg (mul_self_nonneg tol)
-            exact mul_nonneg (normSq_nonneg v1) (normSq_nonneg vk)
+            exact mul_nonneg (normSq_nonneg v1) (normSq_nonneg v1)
           simp only [V3.zero]
           refine ⟨?_, ?_, ?_⟩ <;> simpa using hb
         · intro p hp q hq
@@ -466,5 +466,27 @@ theorem tn2_projection_orthonormal (n : V2) (hn : n.x * n.x + n.y * n.y = 1) :
   · simp only [M2.det]; linarith
 
 example : tn2Projection ⟨3/5, -4/5⟩ = ⟨4/5, 3/5, 3/5, -4/5⟩ := by decide +kernel
+
+/-! ### further non-vacuity witnesses for the hypotheses above -/
+
+
+example : rotationMatrix (3/5) (dot ⟨3/5, 0, 4/5⟩ V3.ez) (V3.smul (1 / (3/5)) (cross ⟨3/5, 0, 4/5⟩ V3.ez))
+    = rodrigues ⟨3/5, 0, 4/5⟩ V3.ez := by decide +kernel
+example : (3/5 : Rat) * (3/5) = normSq (cross ⟨3/5, 0, 4/5⟩ V3.ez) := by decide +kernel
+
+-- anti-parallel: identity, R n = −r
+example : projectMatrix (1/100000000) ⟨0, 0, -1⟩ V3.ez = M3.id
+    ∧ (isSmall (1/100000000) (cross ⟨0, 0, -1⟩ V3.ez) = true → cross ⟨0, 0, -1⟩ V3.ez = V3.zero) := by
+  decide +kernel
+example : mulVec (projectMatrix (1/100000000) ⟨2/3, 1/3, 2/3⟩ V3.ez) ⟨2/3, 1/3, 2/3⟩ = V3.ez := by decide +kernel
+
+example : NoKnifeEdge (1/100000000) ⟨3/13, 4/13, 12/13⟩ ∧ NoKnifeEdge (1/100000000) ⟨0, -1, 0⟩ := by
+  unfold NoKnifeEdge; decide +kernel
+example : tn3Tangent1 (1/100000000) ⟨3/13, 4/13, 12/13⟩ = ⟨-4/13, 3/13, 0⟩
+    ∧ tn3Tangent1 (1/100000000) ⟨0, -1, 0⟩ = ⟨1, 0, 0⟩ := by decide +kernel
+example : tn3Projection ⟨-4/5, 3/5, 0⟩ (cross ⟨3/13, 4/13, 12/13⟩ ⟨-4/5, 3/5, 0⟩) ⟨3/13, 4/13, 12/13⟩
+    = M3.ofRows ⟨-4/5, 3/5, 0⟩ ⟨-36/65, -48/65, 5/13⟩ ⟨3/13, 4/13, 12/13⟩ := by decide +kernel
+example : normals1d ⟨0, 0, -1⟩ = (⟨1, 0, 0⟩, ⟨0, -1, 0⟩) ∧ normals1d ⟨3/5, 4/5, 0⟩ = (⟨4/5, -3/5, 0⟩, ⟨0, 0, -1⟩) := by
+  decide +kernel
 
 end PorepyVerif.C32
